@@ -346,7 +346,7 @@ def run(chk):
         for neu in (False, True):
             top = 200
             if not neu:
-                top = {'Se': 8, 'Fe': 40}.get(el, 200)
+                top = {'Se': 8, 'Fe': 30, 'S': 120 if quick else 200}.get(el, 200)
             ns = sorted(set([0, 1, 2, 3, 5, 12, top] + [rng.randint(0, top) for _ in range(1 if quick else 10)]))
             for n in ns:
                 ecases.append((el, n, neu))
@@ -368,7 +368,7 @@ def run(chk):
     tick('round/conv/elem')
     # ---------------------------------------------------------------- (d) isotopic_distribution
     cap = 600 if quick else 2500
-    n_iso = 170 if quick else 5000
+    n_iso = 130 if quick else 4000
     cases = list(corpus)
     for i in range(n_iso):
         o = gen_opts(rng, constants)
